@@ -96,6 +96,44 @@ def mk_prog(rng, prog=None, origin=None):
     return d
 
 
+SEQUENCES = [[(True, 4), (False, 4), (True, 4)], [(False, 2), (True, 2), (False, 2)], [(True, 0), (False, 0)],
+             [(True, 8), (True, 8), (False, 8), (True, 3)]]
+
+
+def history_independence(ctx, exe, judge, progs):
+    sample = progs[:4] + ctx.rng.sample(progs, min(len(progs), 60 if ctx.thorough() else 16))
+    fails = []
+    for k, p in enumerate(sample):
+        seq = SEQUENCES[k % len(SEQUENCES)]
+        want = common.run_lines(judge, [fmtlib.judge_cmd(p["text"], a, b) for a, b in seq])
+        srv = fmtlib.FmtServer(exe, "hist%d" % k)
+        try:
+            got = [fmtlib.enc_obs(srv.format(p["text"], a, b, timeout=20.0)) for a, b in seq]
+        finally:
+            srv.kill()
+        if got != want:
+            # three fresh processes before it counts
+            again = []
+            for r in range(3):
+                srv = fmtlib.FmtServer(exe, "histr%d_%d" % (k, r))
+                try:
+                    again.append([fmtlib.enc_obs(srv.format(p["text"], a, b, timeout=30.0)) for a, b in seq])
+                finally:
+                    srv.kill()
+            if all(g != want for g in again):
+                i = [x != y for x, y in zip(again[0], want)].index(True)
+                fails.append(dict(text=p["text"], sequence=[list(o) for o in seq], first_wrong_request=i,
+                                  observed=fmtlib.dec_model(again[0][i]) if again[0][i] else None,
+                                  expected=fmtlib.dec_model(want[i])))
+    for f in sorted(fails, key=lambda f: len(f["text"]))[:2]:
+        ctx.violation(dict(kind="oracle", property="C11",
+                           what="the formatting answer depends on earlier requests: request %d of a sequence of formatting requests "
+                                "with different options on the same document is not what the options prescribe" % f["first_wrong_request"],
+                           text=f["text"], sequence=f["sequence"], observed=f["observed"], expected=f["expected"]))
+    ctx.cov["history_independence_sequences"] = len(sample)
+    return fails
+
+
 def run(ctx):
     proved = common.proof_stage(ctx)
     env = fmtlib.setup(ctx)
@@ -111,6 +149,9 @@ def run(ctx):
     for _ in range(n):
         progs.append(mk_prog(ctx.rng))
     fails, st, jobs, obs = oracle(exe, dump, progs, seed=ctx.rng.randrange(1 << 30))
+    # history independence: the answer is a function of (text, options) alone - the same document asked with different
+    # option settings in a row, in ONE server process, must get what the model computes for each request
+    hist_fail = history_independence(ctx, exe, judge, progs)
     shown = 0
     seen = set()
     for f in sorted(fails, key=lambda f: len(progs[f["prog"]]["text"])):
